@@ -279,12 +279,14 @@ func (c *Collection) CreateIndex(indexName, columnName string, fn func(r Reader)
 	buffer := commit.NewBuffer(c.Count())
 	reader := commit.NewReader()
 	for chunk := commit.Chunk(0); int(chunk) < chunks; chunk++ {
-		c.slock.Lock(uint(chunk)) // no commit may touch the chunk while it is indexed
-		if column.Snapshot(chunk, buffer) {
-			reader.Seek(buffer)
-			index.Apply(chunk, reader)
-		}
-		c.slock.Unlock(uint(chunk))
+		func() {
+			c.slock.Lock(uint(chunk)) // no commit may touch the chunk while it is indexed
+			defer c.slock.Unlock(uint(chunk))
+			if column.Snapshot(chunk, buffer) {
+				reader.Seek(buffer)
+				index.Apply(chunk, reader)
+			}
+		}()
 	}
 
 	return nil
@@ -322,12 +324,14 @@ func (c *Collection) CreateSortIndex(indexName, columnName string) error {
 	buffer := commit.NewBuffer(c.Count())
 	reader := commit.NewReader()
 	for chunk := commit.Chunk(0); int(chunk) < chunks; chunk++ {
-		c.slock.Lock(uint(chunk)) // no commit may touch the chunk while it is indexed
-		if column.Snapshot(chunk, buffer) {
-			reader.Seek(buffer)
-			index.Apply(chunk, reader)
-		}
-		c.slock.Unlock(uint(chunk))
+		func() {
+			c.slock.Lock(uint(chunk)) // no commit may touch the chunk while it is indexed
+			defer c.slock.Unlock(uint(chunk))
+			if column.Snapshot(chunk, buffer) {
+				reader.Seek(buffer)
+				index.Apply(chunk, reader)
+			}
+		}()
 	}
 
 	return nil
